@@ -406,13 +406,34 @@ func (k *c06) addTies(r *rand.Rand, j *gen.Journal, info *gen.Info) {
 	// (between two permanent non-asserted accounts, zero amount: no position changes)
 	if len(perms) >= 2 {
 		d0 := info.Dates[len(info.Dates)/3]
-		for n := 0; n < 3; n++ {
+		for n := 0; n < 5; n++ {
 			t := gen.Dir{Kind: gen.KTxn, Date: d0, Desc: "same but for targets", HasPerf: true,
 				Bookings: []gen.Booking{{Credit: perms[0], Debit: perms[1], Qty: "0", Com: info.Commodities[0]}}}
-			if n > 0 {
+			switch {
+			case n == 1 || n == 2:
 				t.Perf = info.Commodities[:1+(n-1)%len(info.Commodities)]
+			case n >= 3 && len(info.Commodities) >= 2:
+				// target lists of equal length that differ in their first element only
+				t.Perf = []string{info.Commodities[1]}
+				if n == 4 {
+					t.Perf = []string{info.Commodities[1], info.Commodities[0]}
+				}
+			case n >= 3:
+				continue
 			}
 			j.Dirs = append(j.Dirs, t)
+		}
+		// transactions that are identical except for the quantity or the commodity of their booking
+		for n := 0; n < 3; n++ {
+			qty, com := []string{"1", "2", "1"}[n], info.Commodities[0]
+			if n == 2 {
+				if len(info.Commodities) < 2 {
+					continue
+				}
+				com = info.Commodities[1]
+			}
+			j.Dirs = append(j.Dirs, gen.Dir{Kind: gen.KTxn, Date: d0, Desc: "same but for the amount",
+				Bookings: []gen.Booking{{Credit: perms[0], Debit: perms[1], Qty: qty, Com: com}}})
 		}
 	}
 	gen.FixAssertions(j)
